@@ -1,3 +1,4 @@
+from vf.runner import Obl
 """shared pieces of the property modules"""
 X87 = ['-Dsoxr_rint_included', '-include', 'x87_model.h']
 RINT_KERNELS = ['lsx_rint%d_clip%s%s%s' % (b, two, d, f) for b in (32, 16) for two in ('', '_2')
@@ -12,3 +13,18 @@ def rint_blocks(n):
 X87_STUB = 'x87 FIST/FNSTSW/FLDENV inline asm of rint.h replaced by harness/include/x87_model.h (validated natively against the asm)'
 AE_STUB = 'abstract engine behind control_block (harness/include/abs_engine.h): exact-size buffers, any per-round supply, lock-step channels'
 ENV_STUB = 'getenv() returns NULL (no SOXR_* overrides) unless the harness says otherwise; time() arbitrary'
+
+
+OPS = {0: 'push', 1: 'flush', 2: 'pull', 4: 'query'}
+
+def api_step(op, it, ot, kind, ch, cap=3):
+    return Obl(name='api_%s_i%d_o%d_k%d_ch%d' % (OPS[op], it, ot, kind, ch), src='api_step.c',
+               extra_srcs=['src/data-io.c', 'x87_glue.c'],
+               defs=['-DVF_OP=%d' % op, '-DVF_ITYPE=%d' % it, '-DVF_OTYPE=%d' % ot, '-DVF_KIND=%d' % kind,
+                     '-DVF_CH=%d' % ch, '-DVF_CAP=%d' % cap, '-DAE_FIXED_BUFS=%d' % (cap + 1), '-DVF_DATAIO_MEMCPY', '-DVF_X87_ABSTRACT'] ,
+               ccflags=X87, unwind=cap + 2, unwindset=rint_blocks(1) + ['soxr_output.0:14', 'fixed_alloc.0:%d' % (cap * 16 + 2), 'check_canaries.0:%d' % (cap * 16 + 2), 'check_canaries.1:8', 'vf_word_memcpy.0:%d' % (cap * 2 + 2)], timeout=300,
+               desc='one %s call, itype %d otype %d (bit 2 = split), engine kind %d, %d channel(s)' % (OPS[op], it, ot, kind, ch),
+               bounds='frames<=%d per call, input-fn calls<=4, engine rounds<=6' % cap,
+               stubs=[AE_STUB, X87_STUB, ENV_STUB],
+               funcs=['soxr.c:soxr_process', 'soxr.c:soxr_output', 'soxr.c:soxr_input', 'soxr.c:soxr_output_no_callback'])
+
